@@ -38,7 +38,19 @@ def spec3():
          VarSpec('t', ('t',), coord=True)], label='s3')
 
 
-SPECS = {'s1': spec1, 's2': spec2, 's3': spec3}
+def spec4():
+    # two length-1 dimensions (one unlimited) and a rank-4 variable with
+    # pairwise different lengths
+    return FileSpec(
+        [('t', 1, True), ('z', 1, False), ('y', 3, False), ('x', 2, False)],
+        [VarSpec('A', ('t', 'z', 'y', 'x'), attrs={'units': 'ppb'}),
+         VarSpec('B', ('z', 'x')),
+         VarSpec('M', ('t', 'y'), masked=(1,)),
+         VarSpec('x', ('x',), coord=True)],
+        attrs={'title': 'four'}, label='s4')
+
+
+SPECS = {'s1': spec1, 's2': spec2, 's3': spec3, 's4': spec4}
 
 
 class Env(object):
@@ -257,25 +269,48 @@ class RemoveSingleton(Op):
         self.named = named
         self.name = 'removeSingleton(named=%s)' % named
 
+    def args(self, ctx, spec):
+        if not self.named:
+            return {}
+        return {'di': ctx.int('di', 0, len(spec.dims) - 1)}
+
+    def conc(self, inputs, spec):
+        return {'di': _g(inputs, 'di')} if self.named else {}
+
     def run(self, f, f2, a, env):
         if self.named:
-            ones = [d for d, v in f.dimensions.items() if len(v) == 1]
-            return f.removeSingleton(ones[0] if ones else None)
+            return f.removeSingleton(list(f.dimensions)[int(a['di'])])
         return f.removeSingleton()
 
     def surviving(self, spec, a):
+        if self.named:
+            k = spec.dims[int(a['di'])]
+            return [d[0] for d in spec.dims if not (d[0] == k[0] and
+                                                    d[1] == 1)]
         return [d[0] for d in spec.dims if d[1] != 1]
 
 
 class Reorder(Op):
+    """any permutation of the dimension order (symbolic choice)"""
     name = 'reorderDimensions'
 
     def applicable(self, spec):
         return len(spec.dims) >= 2
 
+    def _perms(self, n):
+        import itertools
+        return list(itertools.permutations(range(n)))
+
+    def args(self, ctx, spec):
+        return {'pi': ctx.int('pi', 0, len(self._perms(len(spec.dims))) - 1)}
+
+    def conc(self, inputs, spec):
+        return {'pi': _g(inputs, 'pi')}
+
     def run(self, f, f2, a, env):
         ds = list(f.dimensions)
-        return f.reorderDimensions(ds, ds[::-1])
+        perm = self._perms(len(ds))[int(a['pi'])]
+        return f.reorderDimensions(ds, [ds[i] for i in perm])
 
 
 class MaskGt(Op):
